@@ -73,41 +73,85 @@ class Cond(V):
 class Seq(V):
     """something with a length whose contents are not tracked: slices and str behind a fat pointer (by
     value), arrays, Vec, String, Box<[T]>, SmallVec"""
-    __slots__ = ("len", "elem")
+    __slots__ = ("len", "elem", "items")
 
-    def __init__(self, ln, elem=None):
+    def __init__(self, ln, elem=None, items=None):
         self.len = ln if isinstance(ln, Lin) else Lin.const(ln)
         self.elem = elem     # optional: type index of elements (for materialising reads)
+        self.items = items   # None: elements unknown; EMPTY: no element yet; else a value summarising every element
 
     def vars(self, acc):
         acc.update(self.len.t)
+        if isinstance(self.items, V):
+            self.items.vars(acc)
 
     def __repr__(self):
-        return "Seq(%r)" % (self.len,)
+        return "Seq(%r%s)" % (self.len, "" if self.items is None else ", items=%r" % (self.items,))
 
     def __eq__(self, o):
-        return isinstance(o, Seq) and self.len == o.len
+        return isinstance(o, Seq) and self.len == o.len and self.items == o.items
 
     def __hash__(self):
-        return hash(("seq", self.len))
+        return hash(("seq", self.len, self.items))
+
+
+class Empty(V):
+    """summary of the elements of an empty sequence"""
+    __slots__ = ()
+
+    def __repr__(self):
+        return "EMPTY"
+
+    def __eq__(self, o):
+        return isinstance(o, Empty)
+
+    def __hash__(self):
+        return 7
+
+
+EMPTY = Empty()
 
 
 class Ref(V):
-    """pointer to path `path` inside cell `cell`"""
-    __slots__ = ("cell", "path")
+    """pointer to path `path` inside cell `cell`; `dyn` = concrete pointee type path when the pointer was unsized
+    to a trait object (used to devirtualise calls through it)"""
+    __slots__ = ("cell", "path", "dyn")
 
-    def __init__(self, cell, path=()):
+    def __init__(self, cell, path=(), dyn=None):
         self.cell = cell
         self.path = tuple(path)
+        self.dyn = dyn
 
     def __repr__(self):
-        return "Ref(%s%s)" % (self.cell, "".join(".%s" % (p,) for p in self.path))
+        return "Ref(%s%s%s)" % (self.cell, "".join(".%s" % (p,) for p in self.path), (" dyn " + self.dyn.rsplit("::", 1)[-1]) if self.dyn else "")
 
     def __eq__(self, o):
-        return isinstance(o, Ref) and self.cell == o.cell and self.path == o.path
+        return isinstance(o, Ref) and self.cell == o.cell and self.path == o.path and self.dyn == o.dyn
 
     def __hash__(self):
-        return hash(("ref", self.cell, self.path))
+        return hash(("ref", self.cell, self.path, self.dyn))
+
+
+class RefAny(V):
+    """pointer to one of several places"""
+    __slots__ = ("targets",)
+
+    def __init__(self, targets):
+        ts = []
+        for t in targets:
+            for x in (t.targets if isinstance(t, RefAny) else (t,)):
+                if x not in ts:
+                    ts.append(x)
+        self.targets = tuple(sorted(ts, key=repr))
+
+    def __repr__(self):
+        return "RefAny(%s)" % ", ".join(repr(t) for t in self.targets)
+
+    def __eq__(self, o):
+        return isinstance(o, RefAny) and self.targets == o.targets
+
+    def __hash__(self):
+        return hash(("refany", self.targets))
 
 
 class Struct(V):
@@ -190,25 +234,32 @@ class DiscrOf(V):
 class Iter(V):
     """a std iterator over a sequence of `len` remaining-at-most items; `enum_from` is the Lin of the next
     index when enumerated (None otherwise); `step` items per element for chunks"""
-    __slots__ = ("len", "enumerated", "kind", "chunk")
+    __slots__ = ("len", "enumerated", "kind", "chunk", "items", "maps")
 
-    def __init__(self, ln, enumerated=False, kind="iter", chunk=None):
+    def __init__(self, ln, enumerated=False, kind="iter", chunk=None, items=None, maps=()):
         self.len = ln
         self.enumerated = enumerated
         self.kind = kind
         self.chunk = chunk     # Lin: length of every item for chunks_exact
+        self.items = items     # summary of the remaining items (None unknown, EMPTY none)
+        self.maps = tuple(maps)   # closures applied lazily by map()
 
     def vars(self, acc):
         acc.update(self.len.t)
+        if isinstance(self.items, V):
+            self.items.vars(acc)
+        for m in self.maps:
+            m.vars(acc)
 
     def __repr__(self):
-        return "Iter(%r%s)" % (self.len, ",enum" if self.enumerated else "")
+        return "Iter(%r%s%s)" % (self.len, ",enum" if self.enumerated else "", (",items=%r" % (self.items,)) if self.items is not None else "")
 
     def __eq__(self, o):
-        return isinstance(o, Iter) and self.len == o.len and self.enumerated == o.enumerated and self.kind == o.kind and self.chunk == o.chunk
+        return isinstance(o, Iter) and self.len == o.len and self.enumerated == o.enumerated and self.kind == o.kind and self.chunk == o.chunk \
+            and self.items == o.items and self.maps == o.maps
 
     def __hash__(self):
-        return hash(("iter", self.len, self.enumerated, self.kind, self.chunk))
+        return hash(("iter", self.len, self.enumerated, self.kind, self.chunk, self.items, self.maps))
 
 
 class FnV(V):
@@ -232,3 +283,30 @@ def value_vars(v):
     acc = set()
     v.vars(acc)
     return acc
+
+
+def weak_join(a, b):
+    """join of two values without phi variables (used for element summaries): numbers that differ become unknown"""
+    if a is None or b is None:
+        return None
+    if isinstance(a, Empty):
+        return b
+    if isinstance(b, Empty):
+        return a
+    if a == b:
+        return a
+    if isinstance(a, (Ref, RefAny)) and isinstance(b, (Ref, RefAny)):
+        return RefAny([a, b])
+    if isinstance(a, Struct) and isinstance(b, Struct) and a.tag == b.tag:
+        return Struct({i: weak_join(a.f[i], b.f[i]) or TOP for i in set(a.f) & set(b.f)}, a.tag)
+    if isinstance(a, Enum) and isinstance(b, Enum) and a.adt == b.adt:
+        vs = {}
+        for i in set(a.v) | set(b.v):
+            if i in a.v and i in b.v:
+                vs[i] = weak_join(a.v[i], b.v[i]) or Struct()
+            else:
+                vs[i] = a.v.get(i) or b.v.get(i)
+        return Enum(a.adt, vs)
+    if isinstance(a, Seq) and isinstance(b, Seq) and a.len == b.len:
+        return Seq(a.len, a.elem, weak_join(a.items, b.items))
+    return TOP
